@@ -120,7 +120,7 @@ def cases(draw):
     n = draw(st.integers(1, 4))
     rows = [{v: draw(VALUE) for v in ALL_VARS} for _ in range(n)]
     return {"tree": tree, "tight": draw(st.booleans()), "rows": rows,
-            "mode": draw(st.sampled_from(["scalar", "array", "array", "mixed"])),
+            "mode": draw(st.sampled_from(["scalar", "array", "array", "mixed", "xscalar"])),
             "route": draw(st.sampled_from(["create", "create", "configure", "ctor"])),
             "tolerances": draw(st.sampled_from([None, None, None, [0.1, 0.05], [0.0, 0.5], [1.0, 0.0]]))}
 
@@ -236,6 +236,11 @@ def check_formula(ctx, case) -> None:
         n = len(rows)
         cols = {}
         for v in ALL_VARS:
+            if mode == "xscalar" and v == "x":  # a scalar x next to array-valued variables (also one-row batches)
+                for r in rows:
+                    r[v] = rows[0][v]
+                cols[v] = rows[0][v]
+                continue
             if mode == "mixed" and v in ("B", "rate"):
                 for r in rows:
                     r[v] = rows[0][v]
@@ -401,6 +406,27 @@ PROBES = [
 ]
 
 
+def check_empty(ctx, case) -> None:
+    """An empty / whitespace-only formula is not well-formed: every loading route rejects it."""
+    text = case["text"]
+    for route in ("create", "ctor", "configure", "load"):
+        ctx.ev()
+        try:
+            if route == "create":
+                fl.Function.create("f", text, None)
+            elif route == "ctor":
+                fl.Function("f", text, load=True)
+            elif route == "configure":
+                fl.Function.create("f", "2 * x", None).configure(text)
+            else:
+                f = fl.Function("f", text)
+                f.load()
+        except (SyntaxError, ValueError):
+            continue
+        ctx.fail("empty-formula-accepted", dict(case, route=route), {"text": repr(text), "route": route})
+    ctx.nt(["empty", text], {"text": repr(text)})
+
+
 def check_probe(ctx, case) -> None:
     ctx.ev()
     text, expected = case["text"], case["expected"]
@@ -487,6 +513,7 @@ def run(ctx) -> None:
     from vlib import runner
 
     ctx.direct("probe", check_probe, [{"text": t, "expected": v} for t, v in PROBES])
+    ctx.direct("empty", check_empty, [{"text": t} for t in ("", " ", "  \t\n", "\n")])
     mod = sys.modules[__name__]
     if ctx.tier == "quick":
         runner.run_sharded(ctx, mod, "shard", 8, ex=2500)
@@ -503,6 +530,6 @@ def run(ctx) -> None:
 
 def replay(ctx, prop, case) -> None:
     fn = {"formula": check_formula, "illformed": check_bad, "probe": check_probe,
-          "fuzz_formula_text": check_fuzz_text}.get(prop)
+          "fuzz_formula_text": check_fuzz_text, "empty": check_empty}.get(prop)
     if fn:
         ctx.direct(prop, fn, [case])
